@@ -82,6 +82,10 @@ CHECKS = {
    text="Seeded exploration: a scripted agent speaks the real libdisco Noise_NK client over a simulated stream to the real agent listener (real libdisco server, real session loop, real codec) and multiplexes 1-4 virtual connections (hello, 0-20 data messages of 0-65000 bytes, eof; IPv4/IPv6 remote addresses) plus pings, UDP relay messages, data for unknown connections, interleaved message by message by the choice tape; every message is framed as three transport writes, one, or with its body split in two; a quarter of the runs drop the agent after n messages. Recording stub services in echo mode sit behind. Oracle per virtual connection: surfaced once with the announced addresses; the bytes the service read equal the concatenation of its data messages; the echoed bytes return to the agent tagged with its addresses, in order; eof/disconnect end exactly the affected connections; every message the listener sends decodes.",
    ref="§3 C16", tech=TECH + "per-virtual-connection ordering/exactly-once oracle over both directions of the real encrypted tunnel; framing and agent-disconnect faults",
    note="The codec round trip is exercised by the messages that actually cross the tunnel; interleaving granularity is one agent message per scheduler step."),
+ "C15": dict(
+   text="Seeded exploration of http-proxy, copy (tcp and udp) and dns-proxy configured with the real forward director, whose dial goes through the simulated kernel: 1-3 clients perform 1-4 exchanges each (HTTP requests with repeated header names, bodies up to 64 KiB, content-length or chunked, lock-step or pipelined, seeded segmentation; raw streams; datagrams / DNS queries) against scripted backends inside the bubble that answer with seeded segmentation of the reply leg; a decoy backend listens on another address; the backend may refuse the connection or close mid-reply (then only 'nothing wrong is delivered' is required). Oracle: what the backend received equals what the client sent (method, target, header multiset, body; raw bytes), what the client received equals what the backend sent, in order; one event per relayed request attributed to the client; the kernel's dial log names only the configured backend and the decoy saw nothing. ssh-proxy is not covered.",
+   ref="§3 C15", tech=TECH + "end-to-end relay-fidelity oracle against scripted in-bubble backends, dial-target accounting; backend refuse/close faults, segmentation on both legs",
+   note="ssh-proxy is not exercised (needs an ssh backend fixture; not built). Content-Length/Transfer-Encoding framing may be re-done by the proxy. Clients that leave without waiting, or whose stream gets an idle gap near the 30 s deadline through the interleaving, are judged only for 'nothing wrong delivered'."),
 }
 NA = {
  "C17": "pure functions of a byte buffer (decoder methods, ipp decode/encode): no schedule, clock, fault or interleaving to simulate (DESIGN §4)",
